@@ -25,6 +25,7 @@ pub fn run_memcheck_stage(sub_prop: &str, st: &mut Stats, tier: Tier, seed: u64)
         .args([sub_prop, tier.name(), "--seed", &format!("{}", seed as i64)])
         .env("FV_ROOT", &out_root)
         .env("FV_NO_GUARD", "1")
+        .env("FV_INPROCESS", "1")
         .env("FV_NO_TSAN", "1")
         .env("FV_NO_MEMCHECK", "1")
         .output();
